@@ -31,6 +31,21 @@ type Spec struct {
 	NonTrivial func(r *sim.Result) bool
 	// Describe renders a sample of a run for the evidence (optional).
 	Describe func(r *sim.Result) any
+	// PostCheck runs after the simulated run, OUTSIDE the bubble (real clock available):
+	// history oracles such as a linearizability check. It returns an oracle rule and
+	// detail, or "" if the history is fine; inconclusive results are counted via res.
+	PostCheck func(r *sim.Result) (rule, detail string)
+}
+
+// runOnce executes one simulated run plus the post-run history check.
+func runOnce(t *testing.T, spec Spec, cfg sim.RunConfig) sim.Result {
+	res := sim.Run(t, cfg, spec.Scenario)
+	if spec.PostCheck != nil && res.Failure == nil && res.Infra == "" {
+		if rule, detail := spec.PostCheck(&res); rule != "" {
+			res.Failure = &sim.Failure{Rule: rule, Detail: detail, Step: res.Steps, SimNS: int64(res.SimTime)}
+		}
+	}
+	return res
 }
 
 type ReplayFile struct {
@@ -79,6 +94,15 @@ type Agg struct {
 	NonTrivial  []string       `json:"nontrivial_digests"`
 	KnownHits   map[string]int `json:"known_hits"`
 	WallS       float64        `json:"wall_s"`
+}
+
+// PorcupineTimeout is the budget of a history check: generous when replaying (a verdict
+// must be reproduced), modest in the run loop (a time-out is counted as inconclusive).
+func PorcupineTimeout() time.Duration {
+	if os.Getenv("VERIF_MODE") == "replay" {
+		return 5 * time.Minute
+	}
+	return time.Duration(envU("VERIF_PORCUPINE_S", 20)) * time.Second
 }
 
 func envU(name string, def uint64) uint64 {
@@ -196,7 +220,7 @@ func runLoop(t *testing.T, spec Spec, tier string, o *out, known map[string]bool
 		if os.Getenv("VERIF_DUMP") == "1" {
 			cfg.Trace = true
 		}
-		res := sim.Run(t, cfg, spec.Scenario)
+		res := runOnce(t, spec, cfg)
 		if os.Getenv("VERIF_DUMP") == "1" && (res.Budget || res.Failure != nil) {
 			ev := res.Events
 			if len(ev) > 120 {
@@ -290,7 +314,7 @@ func runReplay(t *testing.T, spec Spec, rf *ReplayFile, ds []sim.Decision, lenie
 	cfg.Replay = ds
 	cfg.Lenient = lenient
 	cfg.Trace = trace
-	return sim.Run(t, cfg, spec.Scenario)
+	return runOnce(t, spec, cfg)
 }
 
 func replayOnce(t *testing.T, spec Spec, o *out) {
